@@ -17,7 +17,10 @@ Proved about the model (for all link inputs):
   first definition is also the one the reference finally binds to, see the witness;
 * `as_needed_overridden_witness` : the full statement is false for the current code: a library
   whose definition comes first but is overridden by a later regular object's definition is still
-  listed although it satisfies no reference (GNU ld and lld do not list it).
+  listed although it satisfies no reference (GNU ld and lld do not list it);
+* `as_needed_spec_partial`   : for a well-formed input (`WF`) and an `--as-needed` library `d` none
+  of whose first definitions is also defined by a regular object (`NoOverride fs d`), the spec holds
+  exactly: `d ∈ neededLibs fs ↔ Satisfies am fs d` (via `candidates_head`, `resolve_first_dynamic`).
 -/
 namespace Wild.Link
 
@@ -122,5 +125,203 @@ theorem C37_full_false : ¬ C37_full := by
   · simp [witnessFiles] at hf; subst hf; cases hnd
   · simp [witnessFiles] at hf; subst hf
     simp [File.strongUndefs] at hn
+
+/-! ## The spec holds when the first definition is not overridden -/
+
+/-- Well-formed input: a definition entry never carries the pseudo-strength `undefined` (that
+value only arises as the *effective* strength of a definition in a file that was not loaded). -/
+def WF (fs : List File) : Prop :=
+  ∀ f ∈ fs, ∀ e ∈ f.entries, ∀ n c, e ≠ Entry.defn n Strength.undefined c
+
+/-- No regular object overrides a name whose first definition is in library `d`: every file that
+defines such a name is a shared object. -/
+def NoOverride (fs : List File) (d : Nat) : Prop :=
+  ∀ n, firstDef fs n = some d → ∀ (j : Nat) (f : File), fs[j]? = some f → f.defines n = true → f.dynamic = true
+
+theorem findSome?_range' {β : Type} (g : Nat → Option β) (c : β) (d : Nat) (hd : g d = some c) :
+    ∀ (k s : Nat), s ≤ d → d < s + k → (∀ i, s ≤ i → i < d → g i = none) →
+      (List.range' s k).findSome? g = some c := by
+  intro k
+  induction k with
+  | zero => intro s h1 h2 _; omega
+  | succ k ih =>
+    intro s h1 h2 hn
+    rw [List.range'_succ, List.findSome?_cons]
+    by_cases hsd : s = d
+    · subst hsd; rw [hd]
+    · rw [hn s (Nat.le_refl s) (by omega)]
+      exact ih (s + 1) (by omega) (by omega) (fun i hi hlt => hn i (by omega) hlt)
+
+/-- The candidate record of file `i` for name `n` under mask `S`. -/
+def candOf (S : List Bool) (n i : Nat) (f : File) : Cand :=
+  { file := i, dynamic := f.dynamic,
+    strength := if S.getD i false then f.strengthOf n else .undefined,
+    comdat := f.comdatOf n }
+
+/-- `candidates` in terms of `firstDef`: the list starts with the candidate of the first definer. -/
+theorem candidates_head (fs : List File) (S : List Bool) (n d : Nat) (fd : File)
+    (hfd : fs[d]? = some fd) (hfirst : firstDef fs n = some d) :
+    ∃ rest, candidates fs S n = candOf S n d fd :: rest := by
+  unfold firstDef at hfirst
+  obtain ⟨hlt, hp, hnot⟩ := List.findIdx?_eq_some_iff_getElem.1 hfirst
+  have hfdd : fs[d] = fd := (List.getElem?_eq_some_iff.1 hfd).2
+  have hhead : (candidates fs S n).head? = some (candOf S n d fd) := by
+    unfold candidates
+    rw [List.head?_filterMap, List.range_eq_range']
+    apply findSome?_range' _ _ d _ fs.length 0 (Nat.zero_le _) (by omega)
+    · intro i _ hid
+      have hi : i < fs.length := by omega
+      have := hnot i hid
+      simp only [List.getElem?_eq_getElem hi]
+      simp only [Bool.not_eq_true] at this
+      simp [this]
+    · simp only [hfd]
+      rw [hfdd] at hp
+      simp [hp, candOf]
+  cases hcs : candidates fs S n with
+  | nil => rw [hcs] at hhead; simp at hhead
+  | cons c rest =>
+    rw [hcs] at hhead
+    simp only [List.head?_cons, Option.some.injEq] at hhead
+    exact ⟨rest, by rw [hhead]⟩
+
+theorem mem_candidates (fs : List File) (S : List Bool) (n : Nat) (c : Cand) :
+    c ∈ candidates fs S n ↔ ∃ i f, fs[i]? = some f ∧ f.defines n = true ∧ c = candOf S n i f := by
+  unfold candidates
+  simp only [List.mem_filterMap, List.mem_range]
+  constructor
+  · rintro ⟨i, hi, h⟩
+    have hf : fs[i]? = some fs[i] := List.getElem?_eq_getElem hi
+    rw [hf] at h
+    simp only at h
+    split at h
+    · rename_i hdef
+      injection h with h
+      exact ⟨i, fs[i], hf, hdef, h.symm⟩
+    · cases h
+  · rintro ⟨i, f, hf, hdef, rfl⟩
+    refine ⟨i, (List.getElem?_eq_some_iff.1 hf).1, ?_⟩
+    simp [hf, hdef, candOf]
+
+/-- Shared-object candidates are skipped by `select_symbol`'s first pass. -/
+theorem selectGo_all_dynamic (am : Bool) : ∀ (cs : List Cand) (sel : Selector) (st : Option (Nat × Bool)),
+    (∀ c ∈ cs, c.dynamic = true) → selectGo am cs sel st = .ok sel := by
+  intro cs
+  induction cs with
+  | nil => intro sel st _; rfl
+  | cons c rest ih =>
+    intro sel st h
+    have hc : c.dynamic = true := h c (List.mem_cons_self)
+    simp only [selectGo, hc, if_true]
+    exact ih sel st (fun c' hc' => h c' (List.mem_cons_of_mem _ hc'))
+
+/-- A well-formed file's definition of a name it defines has a real strength. -/
+theorem strengthOf_ne_undefined (f : File) (n : Nat)
+    (hwf : ∀ e ∈ f.entries, ∀ m c, e ≠ Entry.defn m Strength.undefined c)
+    (hdef : f.defines n = true) : f.strengthOf n ≠ .undefined := by
+  unfold File.defines at hdef
+  unfold File.strengthOf
+  cases hfind : f.entries.find? (·.definesName n) with
+  | none =>
+    rw [List.find?_eq_none] at hfind
+    rw [List.any_eq_true] at hdef
+    obtain ⟨e, he, hp⟩ := hdef
+    exact absurd hp (hfind e he)
+  | some e =>
+    have hmem : e ∈ f.entries := List.mem_of_find?_eq_some hfind
+    cases e with
+    | undef m w =>
+      have := List.find?_some hfind
+      simp [Entry.definesName] at this
+    | defn m s c =>
+      simp only
+      intro hs
+      subst hs
+      exact hwf _ hmem m c rfl
+
+/-- If every definer of `n` is a shared object and the first definer `d` is loaded, `n` binds to
+`d` (`select_symbol` finds no regular definition and falls back to the first dynamic one). -/
+theorem resolve_first_dynamic (am : Bool) (fs : List File) (n d : Nat) (fd : File)
+    (hwf : WF fs) (hfd : fs[d]? = some fd) (hfirst : firstDef fs n = some d)
+    (hl : isLoaded fs d = true)
+    (hall : ∀ (j : Nat) (f : File), fs[j]? = some f → f.defines n = true → f.dynamic = true) :
+    resolveName am fs n = some (.chosen d) := by
+  obtain ⟨rest, hcs⟩ := candidates_head fs (loadedMask fs) n d fd hfd hfirst
+  have hdyn : ∀ c ∈ candidates fs (loadedMask fs) n, c.dynamic = true := by
+    intro c hc
+    obtain ⟨i, f, hf, hdef, rfl⟩ := (mem_candidates fs _ n c).1 hc
+    exact hall i f hf hdef
+  have hdefd : fd.defines n = true := by
+    have : candOf (loadedMask fs) n d fd ∈ candidates fs (loadedMask fs) n := by
+      rw [hcs]; exact List.mem_cons_self
+    obtain ⟨i, f, hf, hdef, heq⟩ := (mem_candidates fs _ n _).1 this
+    have hi : d = i := congrArg Cand.file heq
+    subst hi
+    rw [hfd] at hf; injection hf with hf; subst hf
+    exact hdef
+  have hmem : fd ∈ fs := List.mem_of_getElem? hfd
+  have hstr : (candOf (loadedMask fs) n d fd).strength ≠ .undefined := by
+    unfold isLoaded at hl
+    simp only [candOf, hl, if_true]
+    exact strengthOf_ne_undefined fd n (hwf fd hmem) hdefd
+  unfold resolveName
+  simp only [hcs, List.isEmpty_cons, Bool.false_eq_true, if_false]
+  congr 1
+  unfold selectSymbol
+  rw [selectGo_all_dynamic am _ _ _ (by rw [← hcs]; exact hdyn)]
+  have hbest : Selector.best {} = none := rfl
+  simp only [hbest]
+  rw [List.find?_cons_of_pos (by simpa using hstr)]
+  rfl
+
+/-- **C37 for `--as-needed` libraries, under `NoOverride`.** For a well-formed input and an
+`--as-needed` shared library `d` none of whose first definitions is overridden by a regular
+object, `d` is listed in DT_NEEDED iff it satisfies a non-weak reference from the output.
+(`as_needed_overridden_witness` shows that the hypothesis `NoOverride` cannot be dropped.) -/
+theorem as_needed_spec_partial (am : Bool) (fs : List File) (d : Nat) (fd : File)
+    (hfd : fs[d]? = some fd) (hdyn : fd.dynamic = true) (hopt : fd.optional = true)
+    (hwf : WF fs) (hno : NoOverride fs d) :
+    d ∈ neededLibs fs ↔ Satisfies am fs d := by
+  constructor
+  · intro h
+    have hl : isLoaded fs d = true := by
+      obtain ⟨_, _, _, hl⟩ := (mem_needed fs d).1 h
+      exact hl
+    obtain ⟨i, f, n, hf, hli, hnd, hn, hfirst⟩ := (as_needed_listed_iff fs d fd hfd hdyn hopt).1 h
+    exact ⟨hl, i, f, n, hf, hli, hnd, hn,
+      resolve_first_dynamic am fs n d fd hwf hfd hfirst hl (hno n hfirst)⟩
+  · exact satisfies_implies_listed am fs d fd hfd hdyn
+
+/-- Non-vacuity: `main.o --as-needed liba.so libb.so` where both libraries define `sym0`
+(`liba.so` first) and `libb.so` alone defines the unreferenced `sym1`: the hypotheses hold for both
+libraries, `liba.so` is listed and satisfies the reference, `libb.so` is neither. -/
+def okFiles : List File :=
+  [ { dynamic := false, optional := false, entries := [.undef 0 false] },
+    { dynamic := true, optional := true, entries := [.defn 0 .strong false] },
+    { dynamic := true, optional := true, entries := [.defn 0 .weak false, .defn 1 .strong false] } ]
+
+theorem okFiles_wf : WF okFiles := by
+  intro f hf e he n c
+  simp only [okFiles, List.mem_cons, List.not_mem_nil, or_false] at hf
+  rcases hf with rfl | rfl | rfl <;> simp at he <;> (try rcases he with rfl | rfl) <;> (try subst he) <;> simp
+
+theorem okFiles_noOverride (d : Nat) : NoOverride okFiles d := by
+  intro n _ j f hf hdef
+  have hj : j < 3 := (List.getElem?_eq_some_iff.1 hf).1
+  have h0 : j = 0 ∨ j = 1 ∨ j = 2 := by omega
+  rcases h0 with rfl | rfl | rfl <;> simp [okFiles] at hf <;> subst hf
+  · simp [File.defines, Entry.definesName] at hdef
+  · rfl
+  · rfl
+
+example : 1 ∈ neededLibs okFiles ∧ Satisfies false okFiles 1 :=
+  have h := (as_needed_spec_partial false okFiles 1 _ rfl rfl rfl okFiles_wf (okFiles_noOverride 1)).1
+    (by decide)
+  ⟨by decide, h⟩
+
+example : 2 ∉ neededLibs okFiles ∧ ¬ Satisfies false okFiles 2 :=
+  ⟨by decide, fun h =>
+    absurd ((as_needed_spec_partial false okFiles 2 _ rfl rfl rfl okFiles_wf (okFiles_noOverride 2)).2 h)
+      (by decide)⟩
 
 end Wild.Link
